@@ -1,7 +1,7 @@
 (** Property C03 - tokens independent of input delivery; no over-reading. *)
 From Coq Require Import List NArith ZArith Bool.
 Import ListNotations.
-Require Import FlexV.Regex FlexV.Tables FlexV.Scan FlexV.Window.
+Require Import FlexV.Regex FlexV.Tables FlexV.Scan FlexV.Window FlexV.BufLayout.
 
 (** The match loop with refills returns, for EVERY way of cutting the input into
     chunks, what the loop over the whole input returns ... *)
@@ -26,3 +26,33 @@ Theorem C03_no_request_once_stopped : forall I step accN stop rest avail i n las
   exists i' n' last', scan_avail I step accN stop i (avail ++ concat (firstn q rest)) n last = More I i' n' last'.
 Proof. exact wscan_lazy. Qed.
 Print Assumptions C03_no_request_once_stopped.
+
+(** The buffer as addresses (coq/BufLayout.v): the ascending byte-by-byte move of the unfinished token to the
+    start of the buffer is right although the ranges overlap; text, new data and the two end-of-buffer bytes
+    fit the [buf_size + 2] bytes whatever the source delivers within the request; after the refill the window
+    is the unfinished token followed by the new data (the step "buf ++ chunk" of the window machine). *)
+Theorem C03_overlapping_move_is_right : forall n m dst src i, (dst <= src)%nat -> (src + n <= length m)%nat -> (i < n)%nat ->
+  nth (dst + i) (BufLayout.copy_fwd m dst src n) BufLayout.EOB = nth (src + i) m BufLayout.EOB.
+Proof. exact BufLayout.copy_fwd_spec. Qed.
+Print Assumptions C03_overlapping_move_is_right.
+
+Theorem C03_refill_fits_the_buffer : forall b chunk junk,
+  (length chunk <= BufLayout.request (BufLayout.c_size b) (BufLayout.number_to_move b))%nat ->
+  (BufLayout.number_to_move b + length chunk + 2 <= BufLayout.c_size (BufLayout.refill b chunk junk) + 2)%nat /\
+  (BufLayout.number_to_move b + length chunk <= BufLayout.c_size (BufLayout.refill b chunk junk))%nat.
+Proof. exact BufLayout.refill_fits. Qed.
+Print Assumptions C03_refill_fits_the_buffer.
+
+Theorem C03_refill_is_window_append : forall b chunk junk, BufLayout.CInv b -> BufLayout.c_cp b = (BufLayout.c_nch b + 1)%nat ->
+  (length chunk <= BufLayout.request (BufLayout.c_size b) (BufLayout.number_to_move b))%nat ->
+  (BufLayout.c_size (BufLayout.refill b chunk junk) - (BufLayout.number_to_move b + length chunk) <= length junk)%nat ->
+  BufLayout.window (BufLayout.refill b chunk junk) = BufLayout.window b ++ chunk /\
+  nth (BufLayout.c_nch (BufLayout.refill b chunk junk)) (BufLayout.c_mem (BufLayout.refill b chunk junk)) 1%N = BufLayout.EOB /\
+  nth (S (BufLayout.c_nch (BufLayout.refill b chunk junk))) (BufLayout.c_mem (BufLayout.refill b chunk junk)) 1%N = BufLayout.EOB /\
+  length (BufLayout.c_mem (BufLayout.refill b chunk junk)) = (BufLayout.c_size (BufLayout.refill b chunk junk) + 2)%nat.
+Proof. exact BufLayout.refill_window. Qed.
+Print Assumptions C03_refill_is_window_append.
+
+Theorem C03_every_request_asks_for_something : forall size ntm, (1 <= BufLayout.request size ntm)%nat.
+Proof. exact BufLayout.request_positive. Qed.
+Print Assumptions C03_every_request_asks_for_something.
